@@ -65,11 +65,12 @@ type ContractDB struct {
 	Guar        []*Clause
 	ThreadLocal map[string]bool // struct type names (or Type.field) not havocked at lock acquire
 	Consts      map[string]string
+	Callers     map[string][]string
 	File        string
 	NLines      int
 }
 
-var topKeywords = map[string]bool{"ghost": true, "spec": true, "inv": true, "guar": true, "threadlocal": true, "func": true, "iface": true, "extern": true, "lemma": true}
+var topKeywords = map[string]bool{"ghost": true, "spec": true, "inv": true, "guar": true, "threadlocal": true, "func": true, "iface": true, "extern": true, "lemma": true, "callers": true}
 var clauseKeywords = map[string]bool{"requires": true, "ensures": true, "assume": true, "release": true, "at": true, "loop": true, "let": true, "val": true, "modifies": true, "flags": true}
 
 var labelRe = regexp.MustCompile(`^\[([^\]]+)\]\s*`)
@@ -102,7 +103,7 @@ func ParseContractFile(path string) (*ContractDB, error) {
 	if err != nil {
 		return nil, err
 	}
-	db := &ContractDB{Funcs: map[string]*FuncContract{}, Specs: map[string]*SpecFn{}, GhostByName: map[string]GhostVar{}, ThreadLocal: map[string]bool{}, Consts: map[string]string{}, File: path}
+	db := &ContractDB{Funcs: map[string]*FuncContract{}, Specs: map[string]*SpecFn{}, GhostByName: map[string]GhostVar{}, ThreadLocal: map[string]bool{}, Consts: map[string]string{}, Callers: map[string][]string{}, File: path}
 	lines := strings.Split(string(data), "\n")
 	db.NLines = len(lines)
 	// gather logical items
@@ -144,6 +145,12 @@ func ParseContractFile(path string) (*ContractDB, error) {
 				g := GhostVar{n, strings.TrimSpace(ty)}
 				db.Ghosts = append(db.Ghosts, g)
 				db.GhostByName[n] = g
+			case "callers":
+				eq := strings.Index(rest, "=")
+				if eq < 0 {
+					return nil, fail(fmt.Errorf("callers: expected ="))
+				}
+				db.Callers[strings.TrimSpace(rest[:eq])] = strings.Fields(rest[eq+1:])
 			case "threadlocal":
 				for _, f := range strings.Fields(rest) {
 					db.ThreadLocal[f] = true
